@@ -484,3 +484,67 @@ def c01(run):
                 "rejects any call that panics, aborts or hangs, and demands exactly one result per id held, tagged with its "
                 "own id. Non-trivial = distinct scenario with a non-empty text.")
     return judge(run, nt_soup, chunk_events=6000)
+
+
+# --------------------------------------------------------------------------------------
+# C15 / C16 / C17: symbols
+# --------------------------------------------------------------------------------------
+def nt_deep_types(sc, evs):
+    return any(n["c"] == "type" and len(n["p"]) >= 5 for e in evs if e["ev"] == "walk" for n in e.get("nodes", []))
+
+
+def symbol_plan(run, what, nrand_q, nrand_t, rule, nontrivial, chunk=600):
+    q = run.tier == "quick"
+    scs = []
+    for s in run.add_model("MC_Validate", env={"FAMILY": "sym", "TIER": run.tier}):
+        s["query"] = ["a", "r"]
+        scs.append(F.symbol_scenario(s, "mc-sym", what))
+    g = F.ProjGen(run.rng, run.prop)
+    for _ in range(nrand_q if q else nrand_t):
+        pr = g.project()
+        pr["query"] = [f["id"] for f in pr["files"]][:3]
+        scs.append(F.symbol_scenario(pr, "rnd-project", what))
+    run.add(scs)
+    run.rule = rule
+    return judge(run, nontrivial, chunk_events=chunk)
+
+
+@plan("C15")
+def c15(run):
+    return symbol_plan(run, ("walk", "filter", "find", "walkers"), 60, 1200,
+        "TLC enumerates family 'sym' (every item kind x package depth 1-3 x all member lists up to length 2 (quick) / 3 "
+        "(thorough) over 19 interface / 10 parcelable member shapes with types nested to depth 4, plus a referencing file); "
+        "for every tree the harness calls walk_symbols at the three filter levels, filter_symbols / find_symbol with the "
+        "predicates 'k-th visited' (all k), 'is of class K' (all 9 classes incl. the package), 'name equals N' (every name "
+        "written in the document) and walk_types / walk_methods / walk_args, identifying every delivered reference by "
+        "pointer identity; the trace spec compares with AidlSymbols.Walk / FilterPaths / FindPath. Plus random projects. "
+        "Non-trivial = distinct scenario whose tree has a type nested at least two levels deep.", nt_deep_types)
+
+
+def nt_multiline(sc, evs):
+    return any(e["ev"] == "lookups" and len(e.get("positions", [])) > 50 for e in evs)
+
+
+@plan("C16")
+def c16(run):
+    return symbol_plan(run, ("lookup",), 60, 1200,
+        "Same trees as C15 (family 'sym' + random projects); for EVERY (line, column) of the rendered document (columns 1 .. "
+        "line length + 2, plus out-of-range positions) and each of the three filter levels the harness calls "
+        "find_symbol_at_line_col; the trace spec compares with AidlSymbols.LookupPath (first symbol in traversal order whose "
+        "reported name range contains the position, inclusive at both ends). Non-trivial = distinct scenario with more than "
+        "50 probed positions.", nt_multiline)
+
+
+def nt_resolved_item_type(sc, evs):
+    return any(n["c"] == "type" and len(n["rk"]) == 3 and n["rk"][1] in ("interface", "parcelable", "enum")
+               for e in evs if e["ev"] == "walk" for n in e.get("nodes", []))
+
+
+@plan("C17")
+def c17(run):
+    return symbol_plan(run, ("walk", "key"), 100, 2000,
+        "Family 'sym' (every item kind x package depth 1-3, a second file in another package referencing the item as return "
+        "type, argument and nested generic) + random projects; for every symbol delivered by walk_symbols on every file the "
+        "harness records get_name / get_qualified_name, and Aidl::get_key; the trace spec compares with AidlSymbols.QNameOf / "
+        "PlainNameOf (item = key, type resolving to an item = that item's key, members Owner::member, imports / package dotted). "
+        "Non-trivial = distinct scenario in which some type symbol resolves to a project item.", nt_resolved_item_type)
